@@ -3,9 +3,9 @@
 
    `step pf q` is the model of the memoisation plumbing (Model/C08_Cache.v) around an ARBITRARY numerical
    function pf; `step pf all_off` is the specification; `run_uncached` wipes every memo before every
-   operation; `reachable pf w` = w is the state after some operation list (without Slice) from the empty world. *)
+   operation; `reachable pf w` = w is the state after some operation list from the empty world. *)
 From Coq Require Import ZArith List Bool.
-From Verif Require Import Lib.C08_Lru Model.C08_Cache Proofs.C08_Cache Proofs.C08_Witness.
+From Verif Require Import Lib.C08_Lru Model.C08_Cache Proofs.C08_Cache Proofs.C08_Time Proofs.C08_PV Proofs.C08_Witness.
 Import ListNotations.
 Open Scope Z_scope.
 
@@ -21,15 +21,15 @@ Theorem lru_size_le : forall (K V : Type) (keq : K -> K -> bool) (cap : nat) (f 
 Proof. exact C08_Lru.lru_size_le. Qed.
 Print Assumptions lru_size_le.
 
-(* for every numerical function and every operation list (create, raw calls, conversions, derived quantities,
-   writes into results, item assignment, attach/replace/detach other, floods of the LRU - everything but
-   Slice), the specification machine shows exactly what the cache-free machine shows.
-   _partial: operation lists containing Slice are not covered by the proof (they are by the correspondence). *)
-Theorem cache_invisible_partial : forall pf ops,
-  (forall s k s', ~ In (Slice s k s') ops) ->
+(* for every numerical function and EVERY operation list (create, raw calls, conversions, derived quantities,
+   writes into results, item assignment, attach/replace/detach other, slices = views that share the buffer of
+   their base, floods of the LRU) the specification machine shows exactly what the cache-free machine shows.
+   The aliasing invariant behind it (Proofs: inv, setrow_inv): after item assignment through any object, whoever
+   still holds memo data neither lives in the assigned buffer nor has an `other` living in it. *)
+Theorem cache_invisible : forall pf ops,
   fst (run pf all_off empty_world ops) = fst (run_uncached pf all_off empty_world ops).
 Proof. exact cache_invisible_lemma. Qed.
-Print Assumptions cache_invisible_partial.
+Print Assumptions cache_invisible.
 
 (* item assignment to a position is followed by the conversion of the NEW contents *)
 Theorem setitem_invalidates : forall pf w s p v w1 x1 w2 x2,
@@ -53,6 +53,19 @@ Theorem other_mutation_propagates : forall pf w s t p y v qt w1 x1 w2 x2,
 Proof. exact other_mutation_lemma. Qed.
 Print Assumptions other_mutation_propagates.
 
+(* views: item assignment through ANY object (base, a slice, another slice of the same base), then the conversion
+   of ANY position: the conversion of what that position shows now (its view of the possibly re-written buffer) *)
+Theorem view_write_invalidates : forall pf w s t p x v w1 x1 w2 x2,
+  reachable pf w -> slot w s = Some p -> slot w t = Some x ->
+  1 <= okind (get_obj w p) -> 1 <= okind (get_obj w x) ->
+  step pf all_off w (SetRow t v) = (w1, x1) -> step pf all_off w1 (Conv s) = (w2, x2) ->
+  bufs w1 = upd_nth (obuf (get_obj w x)) (write_row0 v) (bufs w)
+  /\ obuf (get_obj w1 p) = obuf (get_obj w p) /\ oview (get_obj w1 p) = oview (get_obj w p)
+  /\ x2 = match pf (convfn (okind (get_obj w p))) 0 [(false, contents w1 (get_obj w1 p))] with
+          | None => None | Some a => Some (a, 0) end.
+Proof. exact view_write_lemma. Qed.
+Print Assumptions view_write_invalidates.
+
 (* writing into a returned result changes nothing *)
 Theorem result_write_isolated : forall pf w c, reachable pf w -> step pf all_off w (WriteRes c) = (w, ok_obs).
 Proof. exact write_isolated_lemma. Qed.
@@ -66,6 +79,58 @@ Theorem args_untouched : forall pf w o w1 x,
   /\ (forall a c, x = Some (a, c) -> c = 1 \/ c = -9).
 Proof. exact args_untouched_lemma. Qed.
 Print Assumptions args_untouched.
+
+(* the memo of TimeBase.to_scale keyed by (class/scale of the receiver, target scale, fmt, jd values incl. shape) is
+   invisible for every conversion function and every history (TNew, TScale, floods) *)
+Theorem time_cache_invisible : forall tf ops,
+  trun tf false ([], []) ops = trun_uncached tf false ([], []) ops.
+Proof. exact time_cache_invisible_lemma. Qed.
+Print Assumptions time_cache_invisible.
+
+(* PosVel / PositionDelta machine: for every function pvf and every operation list (create, read pos / vel / other
+   system / trs2acr / distance / elevation / delta.enu, raw trs2kepler / kepler2trs, write into the result, row /
+   slice / whole assignment, attach / detach other) the specification shows what the memo-free machine shows ... *)
+Theorem pv_cache_invisible : forall pvf ops,
+  map fst (pvrun pvf false false ([], None) false ops) = pvrun_uncached pvf ([], None) ops.
+Proof. exact pv_cache_invisible_lemma. Qed.
+Print Assumptions pv_cache_invisible.
+
+(* ... and that is the uninterpreted function of the CURRENT contents of the object ... *)
+Theorem pv_read_current : forall pvf w r s what k a l m,
+  assoc_z s w = Some (k, a, l, m) ->
+  (what =? 5) || (what =? 6) || (what =? 8) = false -> (what =? 4) && (k =? 4) = false ->
+  snd (pvstep pvf false false (w, r) (PRead s what))
+  = match pvf (what * 100 + k * 10) [a] with None => None | Some v => Some (v, 0) end.
+Proof. exact pv_read_plain_lemma. Qed.
+Print Assumptions pv_read_current.
+
+(* ... and of the object it is linked to (`other`, `ref_pos`) ... *)
+Theorem pv_read_linked_current : forall pvf w r s what k a t m k2 a2 l2 m2,
+  assoc_z s w = Some (k, a, Some t, m) -> assoc_z t w = Some (k2, a2, l2, m2) ->
+  (what =? 5) || (what =? 6) || (what =? 8) = true ->
+  snd (pvstep pvf false false (w, r) (PRead s what))
+  = match pvf (what * 100 + k * 10 + k2) [a; a2] with None => None | Some v => Some (v, 0) end.
+Proof. exact pv_read_linked_lemma. Qed.
+Print Assumptions pv_read_linked_current.
+
+(* ... where item assignment changes exactly the contents of the assigned object *)
+Theorem pv_set_current : forall pvf w r s mode v k a l m,
+  assoc_z s w = Some (k, a, l, m) ->
+  assoc_z s (fst (fst (pvstep pvf false false (w, r) (PSet s mode v)))) = Some (k, set_rows mode v a, l, [])
+  /\ (forall t, t <> s -> option_map pv_strip1 (assoc_z t (fst (fst (pvstep pvf false false (w, r) (PSet s mode v)))))
+                         = option_map pv_strip1 (assoc_z t w)).
+Proof. exact pv_set_lemma. Qed.
+Print Assumptions pv_set_current.
+
+(* raw trs2kepler / kepler2trs, for every setting of the switches: no object changes (args_untouched), the
+   observation says "argument writeable and unchanged", and writing into the result is the identity *)
+Theorem raw_result_private : forall pvf sr h w r s c wr1 x,
+  pvstep pvf sr h (w, r) (PRaw s) = (wr1, x) ->
+  fst wr1 = w
+  /\ pvstep pvf sr h wr1 (PWrite c) = (wr1, Some (([], []), 0))
+  /\ (forall a k, x = Some (a, k) -> k = 1 \/ k = -9).
+Proof. exact pv_raw_lemma. Qed.
+Print Assumptions raw_result_private.
 
 (* each quirk, switched on alone, breaks the property (computed witnesses) *)
 Theorem c08_key_ignores_shape_refuted :
@@ -104,8 +169,16 @@ Theorem c08_time_cache_ignores_fmt_refuted :
 Proof. exact time_refuted. Qed.
 Print Assumptions c08_time_cache_ignores_fmt_refuted.
 
-(* non-vacuity: the witnesses of the refutations are handled correctly by the specification, and a world with
-   objects, memo entries and an attached other is reachable *)
+(* non-vacuity: the witnesses of the refutations are handled correctly by the specification; a slice shares the
+   buffer of its base in a reachable world *)
 Example spec_agrees_on_witnesses :
   forallb (fun ops => negb (differs all_off ops)) [w_shape; w_alias; w_ro; w_view; w_hand] = true.
 Proof. exact spec_on_witnesses. Qed.
+
+Example slice_shares_buffer :
+  let w := snd (run toy all_off empty_world [NewPos 0 1 a23; Conv 0; Slice 0 1 5]) in
+  match slot w 0, slot w 5 with
+  | Some p, Some x => Nat.eqb (obuf (get_obj w p)) (obuf (get_obj w x)) && negb (Nat.eqb p x)
+  | _, _ => false
+  end = true.
+Proof. vm_compute. reflexivity. Qed.
